@@ -2,7 +2,7 @@ BOUNDS = ('formats BMP, PNM, TARGA through FILE* and file name; per query the fi
           '(BMP: header size {12,40,108}, bits per pixel {1,4,8,15,16,24,32,other}, compression {0,1,2,3}, width/height <= 5x2 incl. top-down, palette size, '
           'PNM: type P1..P6, the ASCII header text, ASCII sample data (concrete seeded digits), TARGA: image type, bit depth, descriptor, id length, dimensions); '
           'every other byte (offsets, masks, palette entries, run lengths, pixel data, reserved fields) is symbolic; L ranges over every header boundary and truncation point of the variant (quick: a subset)')
-OUTSIDE = ('run-length-coded BMP (compression 1, 2) and TARGA (image type 10) data: no verdict within 300 s even with run lengths bounded to 4..7 (kept as thorough-tier attempts); scanline readers (they dispatch through std::function over a pointer to member, which the translator does not resolve); PNG, JPEG, TIFF (decoding is done by libpng/libjpeg/libtiff, external C libraries outside /repo: not encodable); std::istream devices (not modelled: FILE* and file name only); '
+OUTSIDE = ('run-length-coded BMP (compression 1, 2) and TARGA (image type 10) data: no verdict within 300 s even with run lengths bounded to 4..7 (kept as thorough-tier attempts); PNG, JPEG, TIFF (decoding is done by libpng/libjpeg/libtiff, external C libraries outside /repo: not encodable); std::istream devices (not modelled: FILE* and file name only); '
            'images larger than 5x2; fully symbolic headers (no verdict: the parser branches on every header byte); I/O errors other than end of file; allocations above 4 KiB succeeding')
 ASSUMPTIONS = ['the FILE* model (rt/rt_file.c) stands for libc: short reads at end of file, ferror() == 0', 'operator new refuses allocations above 4 KiB with std::bad_alloc',
                'control-flow-deciding header bytes are enumerated concretely, not symbolically']
@@ -13,11 +13,12 @@ def queries(tier, seed):
     UNW = [10]; USET = [[]]
     def add(fmt, name, entry, dev, pix, params, L, t, unwind=10, extra=0, ent='h_read'):
         unwind = max(unwind, UNW[0])
+        uset = list(USET[0]) + ([(r'scanline_reader', 2100)] if entry == 'scanline' else [])   # the bmp scanline reader builds a 256-entry bit-mirroring table in its constructor
         d = dict(FORMAT=dict(bmp=1, pnm=2, targa=3)[fmt], ENTRY=E[entry], DEV=dev)
         if pix: d['PIX'] = pix
         p = [L] + list(params)
         p += [0] * (12 - len(p)) + [3, 2]
-        qs.append(Q('%s/%s/%s/%s/L%d' % (fmt, entry, 'file' if dev == 1 else 'name', name, L), 'C11/read.cpp', ent, defs=d, params=p, rt=['file'], unwind=unwind, unwindset=USET[0],
+        qs.append(Q('%s/%s/%s/%s/L%d' % (fmt, entry, 'file' if dev == 1 else 'name', name, L), 'C11/read.cpp', ent, defs=d, params=p, rt=['file'], unwind=unwind, unwindset=uset,
                     rt_unwind=max(L, 16) + 4 + extra, mem_unwind=400, cdefs=dict(VP_FILE_MAX=max(L, 8) + 8), tier=t, timeout=300))
     # ------------------------------------------------------------------ BMP: [magic_ok, hdr, bpp, comp, w, h, ncol, off]
     variants = []
@@ -51,6 +52,7 @@ def queries(tier, seed):
             if L == full:
                 add('bmp', name, 'convert_image', 2, None, par, L, 'quick' if (common and bpp in (24, 8)) else 'thorough')
                 add('bmp', name, 'convert_view', 1, None, par, L, 'quick' if (common and bpp in (24, 4)) else 'thorough')
+                add('bmp', name, 'scanline', 1, None, par, L, 'quick' if (common and comp == 0 and bpp in (24, 8, 4, 1)) else 'thorough')
     # ------------------------------------------------------------------ PNM: [type, w, h, maxval, variant]
     for t_ in range(1, 7):
         for (w, h) in ((3, 2), (9, 1), (1, 1)):
@@ -76,6 +78,7 @@ def queries(tier, seed):
                         if t_ in (2, 3, 5, 6) and var == 0 and L == full:
                             add('pnm', name, 'read_image', 1, pix, [t_, w, h, mx, var, seed % 97], L, 'quick' if (w, h) == (3, 2) else 'thorough')
                             add('pnm', name, 'convert_image', 2, None, [t_, w, h, mx, var, seed % 97], L, 'quick' if (w, h) == (3, 2) and t_ in (3, 5) else 'thorough')
+                        if L in (full, full - 1) and var == 0 and mx == 255: add('pnm', name, 'scanline', 1, None, [t_, w, h, mx, var, seed % 97], L, 'quick' if ((w, h) == (3, 2) and t_ in (2, 4, 5, 6)) else 'thorough')
                         if L in (0, 2, hdr_len - 1, hdr_len): add('pnm', name, 'info', 1, None, [t_, w, h, mx, var, seed % 97], L, 'quick' if (t_ in (2, 6) and (w, h) == (3, 2) and var in (0, 2)) else 'thorough')
     # ------------------------------------------------------------------ TARGA: [idlen, cmaptype, imgtype, bpp, desc, w, h]
     for imgtype in (2, 10, 1, 3):
@@ -95,6 +98,7 @@ def queries(tier, seed):
                         if ok and L == full:
                             add('targa', name, 'convert_image', 1, None, [idlen, 0, imgtype, bpp, desc, w, h] + rle, L, 'quick' if (quick and imgtype == 2) else 'thorough')
                             add('targa', name, 'read_image', 2, pix, [idlen, 0, imgtype, bpp, desc, w, h] + rle, L, 'quick' if (quick and desc in (0, 8)) else 'thorough')
+                        if ok and L in (full, full - 1): add('targa', name, 'scanline', 1, None, [idlen, 0, imgtype, bpp, desc, w, h] + rle, L, 'quick' if (quick and imgtype == 2) else 'thorough')
                         if L in (0, 3, 17, 18): add('targa', name, 'info', 1, None, [idlen, 0, imgtype, bpp, desc, w, h] + rle, L, 'quick' if (quick or ((w, h) == (3, 2) and idlen == 0 and imgtype == 2 and bpp == 24 and desc == 0)) else 'thorough')
     # ------------------------------------------------------------------ run-length-coded data with concrete structure, symbolic colour values
     S = 256
